@@ -460,7 +460,9 @@ struct or pointer-to-struct type (name resolution of the current code, `cfg.dn =
 `Conf`: every member the checker resolves can be fetched and conforms, so pointers typed as structs are
 not nil), `map[string]interface{}` values (member, index, `in`, `len`; the result an `interface{}`, of
 which nothing is claimed but that the access does not fail), indexing a `[]interface{}`, `in` on structs,
-map literals, and (`inFrag2 true`) calls of environment functions.  `typed2` is "every operand has a static type the construct's rule is sound for": scalar
+map literals, and — behind hypotheses on the world, switched on by the two flags of `inFrag2` — calls of
+environment functions (`WorldConforms`) and `matches` (`RegexTotal`: the patterns met compile; `Spec.eval`
+reports a pattern that does not compile in the type class, although it depends on the pattern's value).  `typed2` is "every operand has a static type the construct's rule is sound for": scalar
 operands for the scalar operators and the predicate's body, a slice of scalars (`[]int`, `[]string`, …)
 where a collection is expected, an integer (not `interface{}`) index.  This excludes, explicitly, the constructs
 behind the known findings: the loose index rule (index typed `interface{}`), `filter`/`map` with the static
@@ -476,7 +478,7 @@ slice: with the static element tag and all elements of the element type — or f
 value-dependent error; never with a type error. -/
 theorem check_sound_collections_partial (cfg : CheckCfg) (c : Spec.SCfg) (henv : EnvConforms2 cfg c.env)
     (hdn : cfg.dn = NDefects.asIs)
-    (n n' : Node) (τ : OTy) (V : VTy) (hfrag : inFrag2 false n = true) (hstatic : typed2 cfg [] n = true)
+    (n n' : Node) (τ : OTy) (V : VTy) (hfrag : inFrag2 false false n = true) (hstatic : typed2 cfg [] n = true)
     (h : check cfg n = .ok n' τ) (hV : vtyOf τ = some V) (ctx : Spec.Ctx) (s : Spec.SState) :
     match (Spec.eval c ctx n' s).1 with
     | .ok v => ValOfV v V
@@ -484,7 +486,7 @@ theorem check_sound_collections_partial (cfg : CheckCfg) (c : Spec.SCfg) (henv :
   have hs := accepted_type_is_synth cfg n n' τ h
   obtain ⟨hn', _, _, _⟩ := (check_ok_iff cfg n n' τ).1 h
   obtain ⟨_, _, hev⟩ := frag2_sound (E := ValueDep) (Or.inl rfl) (Or.inr (Or.inl rfl)) (Or.inr (Or.inr rfl))
-    cfg c henv hdn false (fun h => by cases h) n [] hfrag hstatic τ V hs hV {} rfl
+    cfg c henv hdn false (fun h => by cases h) false (fun h => by cases h) n [] hfrag hstatic τ V hs hV {} rfl
   rw [hn'] at hev
   exact hev ctx trivial s
 
@@ -498,7 +500,8 @@ numeric parameter (`Ff(1)`, `Ff(-(1 + 2))`); the retyped non-literal arguments o
 theorem check_sound_calls_partial (cfg : CheckCfg) (c : Spec.SCfg) (henv : EnvConforms2 cfg c.env)
     (hdn : cfg.dn = NDefects.asIs)
     (hworld : WorldConforms (fun e => ValueDep e ∨ e = .call) cfg c)
-    (n n' : Node) (τ : OTy) (V : VTy) (hfrag : inFrag2 true n = true) (hstatic : typed2 cfg [] n = true)
+    (regex : Bool) (hregex : regex = true → RegexTotal c)
+    (n n' : Node) (τ : OTy) (V : VTy) (hfrag : inFrag2 true regex n = true) (hstatic : typed2 cfg [] n = true)
     (h : check cfg n = .ok n' τ) (hV : vtyOf τ = some V) (ctx : Spec.Ctx) (s : Spec.SState) :
     match (Spec.eval c ctx n' s).1 with
     | .ok v => ValOfV v V
@@ -507,7 +510,7 @@ theorem check_sound_calls_partial (cfg : CheckCfg) (c : Spec.SCfg) (henv : EnvCo
   obtain ⟨hn', _, _, _⟩ := (check_ok_iff cfg n n' τ).1 h
   obtain ⟨_, _, hev⟩ := frag2_sound (E := fun e => ValueDep e ∨ e = .call) (Or.inl (Or.inl rfl))
     (Or.inl (Or.inr (Or.inl rfl))) (Or.inl (Or.inr (Or.inr rfl)))
-    cfg c henv hdn true (fun _ => hworld) n [] hfrag hstatic τ V hs hV {} rfl
+    cfg c henv hdn true (fun _ => hworld) regex hregex n [] hfrag hstatic τ V hs hV {} rfl
   rw [hn'] at hev
   exact hev ctx trivial s
 
@@ -578,7 +581,7 @@ private theorem as_kind_of_eval (E : ErrClass → Prop) (cfg : CheckCfg) (c : Sp
 `interface{}`-typed result, which the directives also allow). -/
 theorem as_kind_exact_collections_partial (cfg : CheckCfg) (c : Spec.SCfg) (henv : EnvConforms2 cfg c.env)
     (hdn : cfg.dn = NDefects.asIs)
-    (n n' : Node) (τ : OTy) (hfrag : inFrag2 false n = true) (hstatic : typed2 cfg [] n = true)
+    (n n' : Node) (τ : OTy) (hfrag : inFrag2 false false n = true) (hstatic : typed2 cfg [] n = true)
     (h : check cfg n = .ok n' τ) (hτs : ScalarT τ) :
     (cfg.expect = .bool → match (Spec.run c none n').1 with
       | .ok v => ∃ b, v = .bool b | .error e => ValueDep e) ∧
@@ -593,7 +596,8 @@ theorem as_kind_exact_collections_partial (cfg : CheckCfg) (c : Spec.SCfg) (henv
 theorem as_kind_exact_calls_partial (cfg : CheckCfg) (c : Spec.SCfg) (henv : EnvConforms2 cfg c.env)
     (hdn : cfg.dn = NDefects.asIs)
     (hworld : WorldConforms (fun e => ValueDep e ∨ e = .call) cfg c)
-    (n n' : Node) (τ : OTy) (hfrag : inFrag2 true n = true) (hstatic : typed2 cfg [] n = true)
+    (regex : Bool) (hregex : regex = true → RegexTotal c)
+    (n n' : Node) (τ : OTy) (hfrag : inFrag2 true regex n = true) (hstatic : typed2 cfg [] n = true)
     (h : check cfg n = .ok n' τ) (hτs : ScalarT τ) :
     (cfg.expect = .bool → match (Spec.run c none n').1 with
       | .ok v => ∃ b, v = .bool b | .error e => ValueDep e ∨ e = .call) ∧
@@ -602,7 +606,7 @@ theorem as_kind_exact_calls_partial (cfg : CheckCfg) (c : Spec.SCfg) (henv : Env
     (cfg.expect = .float64 → match (Spec.run c (some 1) n').1 with
       | .ok v => ∃ x, v = .f64 x | .error e => ValueDep e ∨ e = .call) :=
   as_kind_of_eval (fun e => ValueDep e ∨ e = .call) cfg c n n' τ h hτs
-    (check_sound_calls_partial cfg c henv hdn hworld n n' τ (.sc τ.kind) hfrag hstatic h (vtyOf_scalar hτs) [] {})
+    (check_sound_calls_partial cfg c henv hdn hworld regex hregex n n' τ (.sc τ.kind) hfrag hstatic h (vtyOf_scalar hτs) [] {})
 
 -- the hypotheses are satisfiable and not vacuous
 example : WellTyped (cfgWith .repaired) (.binary {} "+" (ident "I") (.int {} 2)) ∧
@@ -632,20 +636,20 @@ def exprArr : Node :=
     (.binary {} "==" (.builtin {} "len" [.slice {} (.cond {} (.binary {} ">" (ident "I") (.int {} 1)) (ident "Ints")
       (.binary {} ".." (.int {} 1) (.int {} 3))) (some (.int {} 0)) (some (.int {} 1))]) (.int {} 1))
 
-example : inFrag2 false exprArr = true ∧ typed2 (cfgWith .asIs) [] exprArr = true ∧
+example : inFrag2 false false exprArr = true ∧ typed2 (cfgWith .asIs) [] exprArr = true ∧
     (check (cfgWith .asIs) exprArr).okType = some boolTy := by
   decide +kernel
 
-example : inFrag2 false exprColl = true ∧ typed2 (cfgWith .asIs) [] exprColl = true ∧
+example : inFrag2 false false exprColl = true ∧ typed2 (cfgWith .asIs) [] exprColl = true ∧
     (check (cfgWith .asIs) exprColl).okType = some boolTy ∧
-    inFrag2 true exprFfLit = true ∧ typed2 (cfgWith2 .asIs) [] exprFfLit = true ∧
+    inFrag2 true false exprFfLit = true ∧ typed2 (cfgWith2 .asIs) [] exprFfLit = true ∧
     (check (cfgWith2 .asIs) exprFfLit).okType = some (some (.num .float64)) ∧
-    inFrag2 true exprFsCond = true ∧ typed2 (cfgWith .asIs) [] exprFsCond = true ∧
+    inFrag2 true false exprFsCond = true ∧ typed2 (cfgWith .asIs) [] exprFsCond = true ∧
     (check (cfgWith .asIs) exprFsCond).okType = some (some .string) ∧
     -- the excluded constructs are outside the predicates
     -- `filter`: in the fragment under the documented rule (`[]interface{}`), not under the code's (`[]T`)
     typed2 (cfgWith .asIs) [] exprFilter = false ∧ typed2 (cfgWith .repaired) [] exprFilter = true ∧
-    inFrag2 false exprFilter = true ∧ typed2 (cfgWith .asIs) [] exprFs1 = false ∧
+    inFrag2 false false exprFilter = true ∧ typed2 (cfgWith .asIs) [] exprFs1 = false ∧
     typed2 (cfgWith2 .asIs) [] exprFfPlusI = false ∧
     typed2 (cfgWith3 .asIs) [] exprAnyTimes1 = false ∧ typed2 (cfgWith .asIs) [] exprIntsA = false := by
   decide +kernel
@@ -745,7 +749,7 @@ theorem sound_hypotheses_witness :
     rw [h] at this
     simpa [CheckResult.okType] using this
   subst hτ
-  exact check_sound_calls_partial (cfgWith2 .asIs) sampleSCfg sample_env rfl (sample_world _) exprFfLit n' _
+  exact check_sound_calls_partial (cfgWith2 .asIs) sampleSCfg sample_env rfl (sample_world _) false (fun h => by cases h) exprFfLit n' _
     (.sc (.num .float64)) (by decide +kernel) (by decide +kernel) h (by decide) ctx s
 
 /-! ### members of struct-typed values -/
@@ -762,7 +766,7 @@ def exprMembers : Node :=
     (.binary {} ">" (.binary {} "+" (.prop {} (ident "St") "X" false) (.prop {} (ident "PSt") "X" false)) (ident "I"))
     (.binary {} "==" (.prop {} (ident "PSt") "Y" true) (.str {} "a"))
 
-example : inFrag2 false exprMembers = true ∧ typed2 (cfgWith4 .asIs) [] exprMembers = true ∧
+example : inFrag2 false false exprMembers = true ∧ typed2 (cfgWith4 .asIs) [] exprMembers = true ∧
     (check (cfgWith4 .asIs) exprMembers).okType = some boolTy ∧
     -- a member of an interface-typed or map-typed receiver is outside the predicate
     typed2 (cfgWith3 .asIs) [] (.prop {} (ident "Any") "x" false) = false ∧
@@ -782,12 +786,22 @@ def exprMaps : Node :=
         .pair {} (.str {} "b") (.index {} (ident "Anys") (.int {} 0)), .pair {} (.str {} "c") (.index {} (ident "MA") (.str {} "k"))]])
       (.builtin {} "len" [ident "MA"]))
 
-example : inFrag2 false exprMaps = true ∧ typed2 (cfgWith5 .asIs) [] exprMaps = true ∧
+example : inFrag2 false false exprMaps = true ∧ typed2 (cfgWith5 .asIs) [] exprMaps = true ∧
     (check (cfgWith5 .asIs) exprMaps).okType = some boolTy ∧
     -- an interface-typed value under an operator stays outside; so does a member of a typed map (`MSI.k`: the
     -- model's value universe yields nil, not the element's zero value, for a missing key)
     typed2 (cfgWith5 .asIs) [] (.binary {} "+" (.index {} (ident "Anys") (.int {} 0)) (.int {} 1)) = false ∧
     typed2 (cfgWith .asIs) [] (.index {} (ident "MSI") (.str {} "k")) = false := by
+  decide +kernel
+
+/-- `Str matches "^a" and not (St.Y matches Str)` over `envTy5` -/
+def exprMatches : Node :=
+  .binary {} "and" (.matches {} true (ident "Str") (.str {} "^a"))
+    (.unary {} "not" (.matches {} false (.prop {} (ident "St") "Y" false) (ident "Str")))
+
+example : inFrag2 false true exprMatches = true ∧ inFrag2 false false exprMatches = false ∧
+    typed2 (cfgWith5 .asIs) [] exprMatches = true ∧
+    (check (cfgWith5 .asIs) exprMatches).okType = some boolTy := by
   decide +kernel
 
 private theorem zaFields (name : String) :
@@ -846,5 +860,9 @@ theorem struct_conforms_witness :
           exact ⟨"a", rfl⟩
       · simp only [h1, h2, if_false] at hf
         cases hf
+
+-- `RegexTotal` is satisfiable (a world whose matcher accepts every pattern)
+example : RegexTotal { sampleSCfg with world := { sampleWorld with regexMatch := fun _ _ => some false } } :=
+  fun _ _ => rfl
 
 end ExprModel.C03
